@@ -50,6 +50,8 @@ func Layer(r *ev.Run) {
 			round(r, gen.New(r.Seed, fmt.Sprintf("c02-proxy-%d-%v-%d", i, my, rng.Int63())), i, my)
 		}
 	}
+	// columns bound to an explicit per-column client_id, read through sessions of every identity (bound.go)
+	boundLayer(r)
 	// the HTTP API of AcraTranslator on a unix-socket listener: identities of successive connections from one peer address
 	c02.HTTPPeerReuse(r)
 	r.RequireAtLeast("proxy_foreign_values_checked_not_in_clear", 2000)
